@@ -33,8 +33,13 @@ impl FlightIngestService {
             return Ok(0);
         }
 
-        let batches = flight_data_to_batches(&payload)
-            .map_err(|e| crate::Error::InvalidSchema(format!("Flight IPC decode failed: {e}")))?;
+        // The IPC reader indexes into the frame bodies with offsets taken from the (untrusted)
+        // headers and panics on inconsistent ones; a malformed stream must be an error.
+        let batches = std::panic::catch_unwind(std::panic::AssertUnwindSafe(|| {
+            flight_data_to_batches(&payload)
+        }))
+        .map_err(|_| crate::Error::InvalidSchema("Flight IPC decode failed: malformed frame".into()))?
+        .map_err(|e| crate::Error::InvalidSchema(format!("Flight IPC decode failed: {e}")))?;
 
         let mut total_rows = 0u64;
         for batch in batches {
